@@ -400,10 +400,16 @@ retry_from_root:
             // replaced (the interior root collapsed and its surviving child took its place
             // under the link of the upper layer): fetch the new root through that link and
             // find the position again, as for a root that was split.
-            if (!root->get_version_border()) {
+            // The same holds for a saved root BORDER that was first split (it became a child
+            // of a new interior root of the layer) and then emptied: the link of the upper layer
+            // leads to another node then.
+            {
                 base_node* new_layer_root = iscan_resolve_top_layer_root(ctx);
-                if (new_layer_root != nullptr) {
-                    // (equal to the old pointer while the writer has not swapped the link yet)
+                if (new_layer_root != nullptr &&
+                    (new_layer_root != root || !root->get_version_border())) {
+                    // (an interior root: equal to the old pointer while the writer has not
+                    //  swapped the link yet; a deleted root border that is still linked: the
+                    //  layer is being removed)
                     ctx->stack_top().layer_root = new_layer_root;
                     goto retry_from_root; // NOLINT
                 }
